@@ -20,6 +20,69 @@ Proof.
   cbn [fst snd] in H. bool_hyps. f_equal. apply IH. assumption.
 Qed.
 
+Lemma list_eqb_eq a b : list_eqb a b = true -> a = b.
+Proof.
+  revert b. induction a as [|x a IH]; intros [|y b] H; cbn [list_eqb] in H; try discriminate; [reflexivity|].
+  apply andb_prop in H. destruct H as [Hx Hr]. apply N.eqb_eq in Hx. subst. f_equal. apply IH. exact Hr.
+Qed.
+
+Lemma list_eqb_refl a : list_eqb a a = true.
+Proof. induction a as [|x a IH]; cbn [list_eqb]; [reflexivity|]. rewrite N.eqb_refl. exact IH. Qed.
+
+Lemma both_match_same k k' v : key_matches k v = true -> key_matches k' v = true -> same_key k k' = true.
+Proof.
+  unfold key_matches, same_key, key_norm. destruct v as [n|s| | |]; try discriminate.
+  - destruct (is_quoted k); [discriminate|]. destruct (is_quoted k'); [discriminate|].
+    destruct k as [|c k]; [discriminate|]. destruct k' as [|c' k']; [discriminate|].
+    destruct (digits_val 0 (String c k)) as [a|]; [|discriminate].
+    destruct (digits_val 0 (String c' k')) as [b|]; [|discriminate].
+    intros Ha Hb. apply N.eqb_eq in Ha. apply N.eqb_eq in Hb. subst. apply N.eqb_refl.
+  - destruct (is_quoted k); [|discriminate]. destruct (is_quoted k'); [|discriminate].
+    intros Ha Hb. apply list_eqb_eq in Ha. apply list_eqb_eq in Hb. rewrite Ha, Hb. apply list_eqb_refl.
+Qed.
+
+Lemma table_first_app a b v :
+  table_first (a ++ b) v = match table_first a v with Some p => Some p | None => table_first b v end.
+Proof.
+  induction a as [|[k p] a IH]; cbn [app table_first]; [reflexivity|].
+  destruct (key_matches k v); [reflexivity|exact IH].
+Qed.
+
+Lemma table_first_none_iff t v : table_first t v = None <-> forall k p, In (k, p) t -> key_matches k v = false.
+Proof.
+  induction t as [|[k p] t IH]; cbn [table_first].
+  - split; [intros _ k p []|reflexivity].
+  - destruct (key_matches k v) eqn:E.
+    + split; [discriminate|]. intros H. rewrite (H k p) in E by (left; reflexivity). discriminate.
+    + rewrite IH. split.
+      * intros H k' p' [Hin|Hin]; [inversion Hin; subst; exact E|eapply H; exact Hin].
+      * intros H k' p' Hin. eapply H. right. exact Hin.
+Qed.
+
+Lemma table_first_rev t v : keys_distinct t = true -> table_first (rev t) v = table_first t v.
+Proof.
+  induction t as [|[k p] t IH]; cbn [keys_distinct]; [reflexivity|].
+  intros H. apply andb_prop in H. destruct H as [Hk Ht].
+  cbn [rev table_first]. rewrite table_first_app. cbn [table_first].
+  destruct (key_matches k v) eqn:E.
+  - assert (Hn : table_first (rev t) v = None).
+    { apply table_first_none_iff. intros k' p' Hin. apply in_rev in Hin.
+      destruct (key_matches k' v) eqn:E'; [|reflexivity].
+      pose proof (both_match_same k k' v E E') as Hs.
+      apply negb_true_iff in Hk. rewrite <- Hk. symmetry. apply existsb_exists.
+      exists (k', p'). split; [exact Hin|exact Hs]. }
+    rewrite Hn. reflexivity.
+  - rewrite (IH Ht). destruct (table_first t v); reflexivity.
+Qed.
+
+Lemma table_lookup_fw t fw fw' v :
+  orb (Bool.eqb fw fw') (keys_distinct t) = true -> table_lookup t fw v = table_lookup t fw' v.
+Proof.
+  intros H. apply orb_prop in H. destruct H as [H|H].
+  - apply Bool.eqb_prop in H. subst. reflexivity.
+  - unfold table_lookup. destruct fw, fw'; try reflexivity; [symmetry|]; apply table_first_rev; exact H.
+Qed.
+
 Section Ext.
   Variables rec1 rec2 : string -> list byte -> dres (value * list byte).
   Hypothesis Hrec : forall n rd, rec1 n rd = rec2 n rd.
@@ -49,6 +112,7 @@ Section Ext.
     - cbn [dec_elem].
       match goal with Ht : forall2b _ _ _ = true |- _ => apply table_eqb_eq in Ht; subst end.
       destruct (nth_error members _) as [[kv|]|]; try reflexivity.
+      match goal with Hf : orb _ _ = true |- _ => rewrite (table_lookup_fw _ _ _ kv Hf) end.
       destruct (table_lookup _ _ kv) as [q|]; [|reflexivity]. rewrite Hrec. reflexivity.
   Qed.
 
